@@ -72,8 +72,8 @@ CHECKS["C28"] = ("in-process stateful property-based testing (rapidcheck sequenc
 CHECKS["C24"] = ("in-process property-based testing with real threads under ThreadSanitizer and ASan/UBSan (rapidcheck-drawn instance sets and start delays)",
                  "Weak by nature: interleavings are sampled by the OS scheduler, not enumerated. Concurrent answers must equal solo answers and no sanitizer may report. Exploration only.",
                  "TSan happens-before detection on the executions that occur; solo run as reference", "DESIGN.md §4 C24, §7")
-CHECKS["C25"] = ("in-process property-based testing with a stopper thread at generated delays under ThreadSanitizer and ASan/UBSan",
-                 "Weak by nature: the moment of the stop request is sampled (landing point measured). Result must be unknown or the solo answer, no sanitizer report. Exploration only.",
+CHECKS["C25"] = ("in-process property-based testing with a stopper thread, at generated delays and at generated consistent points of the search (harness-owned schedule through the notifyConsistency hook), under ThreadSanitizer and ASan/UBSan",
+                 "Two modes: the stop request is placed by a sampled wall-clock delay (landing point measured), or issued while the search waits at its K-th consistent point (K generated). Result must be unknown or the solo answer, no sanitizer report. Other landing points inside propagation or theory checks are only sampled. Exploration only.",
                  "TSan happens-before detection; solo run as reference", "DESIGN.md §4 C25, §7")
 CHECKS["C18"] = ("grammar-based fault injection (Hypothesis) and token-level mutation of the regression corpus, run on the ASan/UBSan executable as file and pipe input",
                  "Generated near-valid scripts and mutated regression files; any crash, abort, uncaught exception, sanitizer report, unexpected exit status, unsignalled error or hang without check-sat is a violation (known crash sites are keyed by fingerprint). The in-process libFuzzer target of the design (fz_interpret) is not built. Exploration only.",
